@@ -55,7 +55,8 @@ invariant
     0 <= n <= line_start_offsets@.len(),
     __it0.remaining() == line_start_offsets@.skip(n),
     forall|i: int| 0 <= i < line_start_offsets@.len() ==> is_line_start(input, #[trigger] line_start_offsets@[i] as nat),
-    forall|x: usize| self.line_offsets@.contains(x) <==> (orig.contains(x) || line_start_offsets@.take(n).contains(x)),
+    forall|x: usize| #![trigger self.line_offsets@.contains(x)] #![trigger orig.contains(x)] #![trigger line_start_offsets@.take(n).contains(x)]
+        self.line_offsets@.contains(x) <==> (orig.contains(x) || line_start_offsets@.take(n).contains(x)),
 ensures n == line_start_offsets@.len()
 decreases __it0.decrease()->0
 '''),
@@ -71,8 +72,11 @@ proof {
     lemma_insert_sorted(before, self.line_offsets@, offset);
     assert(line_start_offsets@.skip(n).drop_first() =~= line_start_offsets@.skip(n + 1));
     assert(line_start_offsets@.take(n + 1) =~= line_start_offsets@.take(n).push(offset));
-    assert forall|x: usize| self.line_offsets@.contains(x) <==> (orig.contains(x) || line_start_offsets@.take(n + 1).contains(x)) by {
+    assert forall|x: usize| #![trigger self.line_offsets@.contains(x)] #![trigger orig.contains(x)] #![trigger line_start_offsets@.take(n + 1).contains(x)]
+        self.line_offsets@.contains(x) <==> (orig.contains(x) || line_start_offsets@.take(n + 1).contains(x)) by {
         lemma_push_contains(line_start_offsets@.take(n), offset, x);
+        assert(self.line_offsets@.contains(x) <==> (before.contains(x) || x == offset));
+        assert(before.contains(x) <==> (orig.contains(x) || line_start_offsets@.take(n).contains(x)));
     }
     assert forall|i: int| 0 <= i < self.line_offsets@.len() implies is_line_start(input, #[trigger] self.line_offsets@[i] as nat) by {
         let x = self.line_offsets@[i];
@@ -221,6 +225,131 @@ ensures
     cur_m(r) == cur_n(r),
 ''', props=['C10', 'C04'])
 
+
+ADV_FRAME = '''
+    self.input == old(self).input, self.offset == old(self).offset, self.scanner_impl == old(self).scanner_impl,
+    self.last_char == old(self).last_char, self.last_position == old(self).last_position,
+    self.line_offsets == old(self).line_offsets,
+'''
+
+advance_to = Fn(
+    F_FMI, IMPL, 'advance_to', ret='r',
+    spec='''
+requires fm_inv(*old(self))
+ensures
+    fm_inv(*final(self)),
+    final(self).input == old(self).input, final(self).offset == old(self).offset,
+    final(self).scanner_impl == old(self).scanner_impl,
+    forall|x: usize| old(self).line_offsets@.contains(x) ==> final(self).line_offsets@.contains(x),
+    position < old(self).last_position + old(self).offset ==> cur_n(*final(self)) == cur_n(*old(self)),
+    position >= old(self).last_position + old(self).offset ==> adv_target(old(self).input@, cur_n(*old(self)), position as int, cur_n(*final(self))),
+    // every line start in the consumed region is recorded
+    forall|j: int| cur_n(*old(self)) <= j < cur_n(*final(self)) && #[trigger] starts_line(old(self).input@, j) ==> final(self).line_offsets@.contains(boff(old(self).input@, j) as usize),
+    cur_n(*old(self)) <= cur_n(*final(self)),
+''',
+    props=['C10', 'C09', 'C07', 'C01'],
+    edits=[
+        Ins('body_start', None, '''
+let ghost inp = self.input@;
+let ghost m0 = cur_m(*self);
+let ghost n0 = cur_n(*self);
+let ghost mut n: int = n0;
+let ghost lc0 = self.last_char;
+proof {
+    lemma_cur_cursor(*self);
+    axiom_str_blen(self.input);
+    lemma_boff_mono(inp, n0, inp.len() as int);
+    lemma_boff_mono(inp, m0, n0);
+}
+''', label='advance_to.entry'),
+        ForLoop('for (i, c) in self.char_indices.by_ref() {', it=None, place='self.char_indices', label='advance_to.loop', spec='''
+invariant_except_break
+    forall|j: int| n0 < j <= n ==> boff(inp, j) < position,
+invariant
+    self.char_indices.obeys_prophetic_iter_laws(), self.char_indices.decrease() is Some,
+    self.input == old(self).input, self.offset == old(self).offset, self.scanner_impl == old(self).scanner_impl,
+    self.last_char == old(self).last_char, self.last_position == old(self).last_position,
+    self.line_offsets == old(self).line_offsets,
+    inp == self.input@, blen(inp) <= usize::MAX,
+    0 <= m0 <= n0 <= n <= inp.len(), self.offset == boff(inp, m0),
+    self.char_indices.remaining() == ci_seq(inp.skip(n), (boff(inp, n) - boff(inp, m0)) as nat),
+    n == n0 ==> last_char == lc0 && new_position == self.last_position,
+    n > n0 ==> last_char == inp[n - 1] && new_position + self.offset == boff(inp, n - 1),
+    self.last_position + self.offset <= boff(inp, n0),
+    lc0 == '\\n' ==> n0 > 0 && inp[n0 - 1] == '\\n',
+    forall|q: int| 0 <= q < line_start_offsets@.len() ==> is_line_start(inp, #[trigger] line_start_offsets@[q] as nat),
+    forall|j: int| n0 <= j < n && #[trigger] starts_line(inp, j) && (j > n0 || lc0 == '\\n') ==> line_start_offsets@.contains(boff(inp, j) as usize),
+ensures
+    adv_target(inp, n0, position as int, n),
+decreases self.char_indices.decrease()->0
+''', body_pre='''
+proof {
+    if n < inp.len() { lemma_ci_seq_step(inp, n, (boff(inp, n) - boff(inp, m0)) as nat); lemma_boff_next(inp, n); lemma_boff_mono(inp, n + 1, inp.len() as int); }
+    lemma_boff_mono(inp, m0, n);
+    lemma_boff_mono(inp, n, inp.len() as int);
+}
+let ghost lso0 = line_start_offsets@;
+'''),
+        Ins('after', 'for (i, c) in self.char_indices.by_ref() {', '''
+proof {
+    assert(n < inp.len());
+    assert(c == inp[n] && i + self.offset == boff(inp, n));
+}
+''', label='advance_to.char_read'),
+        Ins('after_stmt', 'new_position = i;', '''
+proof {
+    // bookkeeping for the char just consumed
+    if lso0 != line_start_offsets@ {
+        lemma_push_contains(lso0, (i + self.offset) as usize, (i + self.offset) as usize);
+        assert(starts_line(inp, n));
+        lemma_line_start_byte(inp, n);
+    }
+    assert forall|j: int| n0 <= j < n + 1 && #[trigger] starts_line(inp, j) && (j > n0 || lc0 == '\\n') implies line_start_offsets@.contains(boff(inp, j) as usize) by {
+        if lso0 != line_start_offsets@ { lemma_push_contains(lso0, (i + self.offset) as usize, boff(inp, j) as usize); }
+    }
+    assert forall|q: int| 0 <= q < line_start_offsets@.len() implies is_line_start(inp, #[trigger] line_start_offsets@[q] as nat) by {
+        if q < lso0.len() { assert(line_start_offsets@[q] == lso0[q]); }
+    }
+    n = n + 1;
+}
+''', label='advance_to.consume'),
+        Ins('after_stmt', 'for (i, c) in self.char_indices.by_ref() {', '''
+let ghost n1 = n;
+let ghost lo_before = self.line_offsets@;
+''', label='advance_to.after_loop'),
+        Ins('body_end', None, '''
+'''),
+        Tail('''
+proof {
+    assert(cursor(*self, m0, n1));
+    lemma_cur_is(*self, m0, n1);
+    lemma_boff_mono(inp, n0, n1);
+    if n1 > n0 { lemma_boff_mono(inp, n1 - 1, n1); }
+    assert forall|j: int| n0 <= j < n1 && #[trigger] starts_line(inp, j) implies self.line_offsets@.contains(boff(inp, j) as usize) by {
+        if j == n0 && lc0 != '\\n' {
+            if n0 == 0 { lemma_boff_ends(inp); assert(lo_before[0] == 0); assert(lo_before.contains(0usize)); }
+        }
+    }
+}
+''', label='advance_to.exit'),
+    ])
+
+advance_beyond_match = Fn(
+    F_FMI, IMPL, 'advance_beyond_match',
+    spec='''
+requires fm_inv(*old(self)), matched.span.end + old(self).offset <= usize::MAX
+ensures
+    fm_inv(*final(self)),
+    final(self).input == old(self).input, final(self).offset == old(self).offset,
+    final(self).scanner_impl == old(self).scanner_impl,
+    forall|x: usize| old(self).line_offsets@.contains(x) ==> final(self).line_offsets@.contains(x),
+    matched.span.start >= matched.span.end ==> cur_n(*final(self)) == cur_n(*old(self)),
+    matched.span.start < matched.span.end && matched.span.end + old(self).offset >= old(self).last_position + old(self).offset
+        ==> adv_target(old(self).input@, cur_n(*old(self)), matched.span.end + old(self).offset, cur_n(*final(self))),
+    forall|j: int| cur_n(*old(self)) <= j < cur_n(*final(self)) && #[trigger] starts_line(old(self).input@, j) ==> final(self).line_offsets@.contains(boff(old(self).input@, j) as usize),
+    cur_n(*old(self)) <= cur_n(*final(self)),
+''', props=['C01', 'C07', 'C10'])
+
 offset_fn = Fn(F_FMI, IMPL, 'offset', ret='r',
                spec='requires fm_inv(*self)\nensures r == self.last_position + self.offset',
                edits=[Ins('body_start', None, 'proof { axiom_str_blen(self.input); lemma_cur_cursor(*self); lemma_boff_mono(self.input@, cur_n(*self), self.input@.len() as int); }')], props=['C10'])
@@ -299,6 +428,8 @@ pub struct CharacterClassRegistry { _private: () }
         new,
         set_offset,
         with_offset,
+        advance_to,
+        advance_beyond_match,
         offset_fn,
         fmi_current_mode,
         fmi_set_mode,
